@@ -233,9 +233,37 @@ func genFull(rng *rand.Rand, tier core.Tier, emit core.Emit) {
 // values for the three flags: strconv.ParseBool's accepted spellings, the empty value, and rejected ones (⇒ 400)
 var boolTexts = []string{"1", "t", "T", "TRUE", "true", "True", "0", "f", "F", "FALSE", "false", "False", "", "yes", "2", "tRUE", " 1", "on", "-1", "１"}
 
+// boundaryListing: five listed records, one at each boundary of the three flags (empty, one player, full, one short of
+// full, passworded), under every combination of the flags
+func boundaryListing(rng *rand.Rand, emit core.Emit) {
+	mk := func(d int, num, max int, pw string) string {
+		f := strings.Split(fullState(rng, fmt.Sprintf("1.1.1.%d", d), 10480, false), ":")
+		f[3] = strconv.Itoa(int(ds.Info))
+		inf := strings.Split(f[5], ",")
+		inf[fieldIndex(tInfo, "NumPlayers")] = strconv.Itoa(num)
+		inf[fieldIndex(tInfo, "MaxPlayers")] = strconv.Itoa(max)
+		inf[fieldIndex(tInfo, "Password")] = pw
+		f[5] = strings.Join(inf, ",")
+		return strings.Join(f, ":") + "@0"
+	}
+	for k := 0; k < 8; k++ {
+		items := []string{mk(1, 0, 16, "0"), mk(2, 1, 16, "0"), mk(3, 16, 16, "0"), mk(4, 15, 16, "0"), mk(5, 3, 16, "1"), mk(6, -1, 0, "0"), mk(7, 0, 0, "1"), mk(8, 17, 16, "0")}
+		flag := func(bit int) string {
+			if k&bit != 0 {
+				return encStr([]string{"1", "true", "T"}[rng.Intn(3)])
+			}
+			return []string{"~", encStr("0"), encStr("")}[rng.Intn(3)]
+		}
+		emit("list", strings.Join(items, "|"), "~", "~", "~", flag(1), flag(2), flag(4))
+	}
+}
+
 func genList(rng *rand.Rand, scale int, emit core.Emit) {
 	ages := []string{"0", "1", "60", "179", "180", "181", "3600", "-5", "z"}
-	for i := 0; i < 120*scale; i++ {
+	for i := 0; i < scale; i++ {
+		boundaryListing(rng, emit)
+	}
+	for i := 0; i < 110*scale; i++ {
 		n := []int{0, 1, 1, 2, 2, 3, 3, 4, 6}[rng.Intn(9)]
 		items := make([]string, 0, n)
 		var infos [][]string
